@@ -152,6 +152,10 @@ class Tables(object):
         tdecls = [tdecls[i] for i in case['order']]
         other = table('other', 'ctxRoot', 2, ['otherIdx', 'otherVal'], index=[(0, 'otherIdx')])
         scal = [ot('plainScalar', ('simple', 'Integer32'), ['ctxRoot', 3])]
+        # own scalars named like columns of the other module's table (names are per module): whenever the name is not imported
+        namesakes = [nm for nm in ('remoteIdx', 'remote-hy-idx') if nm not in case.get('idx', [])]
+        for i, nm in enumerate(namesakes):
+            scal.append(ot(nm, ('simple', 'Integer32'), ['ctxRoot', 4 + i]))
         decls = [{'k': 'value', 'name': 'ctxRoot', 'oid': ['enterprises', 4242]}]
         pos = sum(case['order']) % 3
         decls += [other + tdecls + scal, tdecls + other + scal, scal + tdecls + other][pos]
@@ -166,6 +170,8 @@ class Tables(object):
                    'otherIdx': 'column', 'otherVal': 'column', 'plainScalar': 'scalar'}
         for c in cols:
             want_nt[c] = 'column'
+        for nm in namesakes:
+            want_nt[nm] = 'scalar'
         for sym, nt in sorted(want_nt.items()):
             if refir.nodetype(lmod, uni.decl[(LOCAL, sym)]) != nt:
                 raise AssertionError('reference model disagrees with itself on %s' % sym)
@@ -230,7 +236,7 @@ class Lists(object):
     name = 'lists'
     describe = ('NOTIFICATION-TYPE OBJECTS, OBJECT-GROUP OBJECTS, NOTIFICATION-GROUP NOTIFICATIONS and TRAP-TYPE VARIABLES lists: '
                 'every sequence without repetition of length 0..3 over local, local hyphenated, imported and imported '
-                'hyphenated objects')
+                'hyphenated objects; for OBJECTS / VARIABLES of notifications also every list of 2-3 members naming one object twice')
 
     def blocks(self, tier):
         return [{'clause': c} for c in ('nt', 'og', 'ng', 'trap')]
@@ -244,6 +250,12 @@ class Lists(object):
                 yield {'clause': block['clause'], 'list': list(seq)}
         if lo == 0:
             yield {'clause': block['clause'], 'list': None}
+            # the variable bindings of a notification are positional: one object may be named twice (old / new value)
+            for a in pool:
+                yield {'clause': block['clause'], 'list': [a, a]}
+            for a, b in itertools.permutations(pool, 2):
+                for seq in ([a, b, a], [a, a, b], [b, a, a]):
+                    yield {'clause': block['clause'], 'list': seq}
 
     def run_case(self, case):
         lst = case['list']
